@@ -9,6 +9,7 @@ import Q1t.Proofs.CQasmWitness
 import Q1t.Proofs.CQasmTrig
 import Q1t.Proofs.CQasmWFWitness
 import Q1t.Proofs.CQasmComplex
+import Q1t.Proofs.CQasmEquivGates
 /-!
 # C12 — the c-QASM export preserves the circuit's semantics or fails
 
@@ -17,8 +18,9 @@ generated table `Gen.cqGates`).  Reference: `Q1t/Spec/CQ1.lean` (a cQASM 1.0 sub
 of every instruction, single-shot branching semantics) and `Q1t/Spec/Born.lean` (the circuit).
 
 Full statement (FALSE on the pinned code: defect classes witnessed below.  Its well-formedness half is proved outside
-the syntactic defect classes: `cq_wellformed_partial`.  Its equivalence half, `cq_equiv_partial`, is NOT proved; it
-is checked by the correspondence (B) on every run):
+the syntactic defect classes: `cq_wellformed_partial`.  Its equivalence half is proved OPERATION BY OPERATION on the level of values
+(`cq_equiv_*_partial`, section at the end); the composition to whole programs and the exactness of the parse are NOT
+proved and are checked by the correspondence (B) on every run):
 
   `cq_wellformed` / `cq_equiv`: for every circuit `c` whose operations can be simulated, `exportText c` is an error, or
   a text `t` with `parseProgram t = ok p`, `programWf p = none` and, for every register word `w`,
@@ -379,6 +381,88 @@ theorem neg_ccrz_block_is_u1 (h : LawfulAmp α P) (hh : Proofs.Unitaries.LawfulH
     ([[1, 0], [0, e * e]] : LMat α) = Spec.specMatrix (.U1 l) := ccrz_block_is_u1 h hh l
 
 end param
+
+
+/-! ## Equivalence, operation by operation (`cq_equiv_partial`)
+
+Carrier: the branches of `Spec/Born` (`(unnormalised state, register word)`).  `dSem` / `dSeq` is the semantics of
+`Spec/CQ1` on statements given by their VALUES (`DStmt`: a gate is its matrix on its qubits and its condition bits);
+`cq_values_are_cq1_semantics` shows it is literally `CQ1.instrSem`.  On a branch satisfying the invariant `BrInv`
+(state of length `2^n`, kept by the non-zero test, word below `2^n`; `n ≤ 64`):
+
+* `cq_equiv_gate_partial` — for EVERY gate of `exactGates` (`H X Y Z S Sdg T Tdg I RX RY RZ CX CRY CRX CCRY CCRX`), all
+  parameter values, all `n`, all valid placements: the value-level lines of the generated template (`exactDenot`, read
+  off `Gen.cqGates` through `slinesOf`; kernel-checked `slines_table`), placed on the register, give exactly the branch
+  of the circuit's gate operation.  Route: assembled identity on `k` qubits, then `embed_foldl_compose_one` (C04's
+  `EmbedAlgebra`) to `n` qubits.
+* `cq_equiv_cond_partial` — a `not`-bracketed one-line conditional gate, for every control list without repetition and
+  every target below `2^len`: the branch of the circuit's conditional gate.
+* `cq_equiv_measure_partial`, `cq_equiv_prep_partial`, `cq_equiv_barrier_partial` — `measure / measure_x / measure_y` of
+  qubit `q` into bit `q`, `prep_z`, barriers.
+
+NOT proved: (1) that the parsed program of the exported TEXT is this value-level statement list (needs the exact parse
+results and a number round trip `S.angle (parse (N.disp x)) = x`; `cq_wellformed_partial` gives parsing and
+well-formedness only); (2) the fold over the operations of a circuit (`Born.branches` vs `dSeq` on branch lists, with
+preservation of `BrInv`); (3) gates outside `exactGates`: `V Vdg U1 CU3` (right up to a global phase, per-gate facts
+above), `CZ Swap CS CT CY CCX CCZ CU1` (per-gate facts above, not yet lifted), `measure_all`, `Kron`, `Composite`,
+unconditioned `Loop`.  All of these are checked by (B) on every run. -/
+
+section equiv
+variable {α P : Type} [CommRing α] [Amp α P]
+open Q1t.Proofs.Route
+
+/-- the value-level semantics is the semantics of `Spec/CQ1` -/
+theorem cq_values_are_cq1_semantics (S : CQ1.NumSem α P) (n : Nat) (nz : List α → Bool) (k q : Nat) (br : CQ1.Branch α) :
+    CQ1.instrSem S n nz ⟨[], "not", [.b k]⟩ br = some (dSem n nz (.notb k) br) ∧
+    CQ1.instrSem S n nz ⟨[], "measure", [.q q]⟩ br = some (dSem n nz (.measure q [] []) br) ∧
+    CQ1.instrSem S n nz ⟨[], "prep_z", [.q q]⟩ br = some (dSem n nz (.prep q) br) :=
+  ⟨instrSem_not S n nz k br, (instrSem_measure S n nz q br).1, instrSem_prep S n nz q br⟩
+
+/-- **cq_equiv_partial, gates** -/
+theorem cq_equiv_gate_partial (h : LawfulAmp α P) (hh : Proofs.Unitaries.LawfulHalf α P) (hn : LawfulNegHalf α P)
+    (name : String) (hname : name ∈ exactGates) (vals : List P) (hvals : vals.length = (paramsOfName name).length)
+    (n : Nat) (bits : List Nat) (hv : Spec.validBits n bits = true) (hk : bits.length = libBits name) :
+    ∃ (apps : List (List Nat × LMat α)) (term : GateTerm P),
+      exactDenot (α := α) name vals = some apps ∧ CQ.libTerm name vals = some term ∧
+      ∀ (nz : List α → Bool) (br : CQ1.Branch α), BrInv n nz br →
+        nz (LMat.mulVec (Spec.embed n bits (Spec.specMatrix term)) br.1) = true →
+        some (dSeq n nz (gateLines (placeApps bits apps)) [br]) = Spec.branchesOp n nz (.gate term bits) br := by
+  obtain ⟨apps, term, h1, h2, h3, h4⟩ := exact_gate h hh hn name hname vals hvals
+  refine ⟨apps, term, h1, h2, fun nz br hbr hnz => ?_⟩
+  apply gate_equiv_of_prod n nz term bits hv apps _ (by rw [hk]; exact h4) br hbr hnz
+  intro a ha
+  rw [hk]
+  have := List.all_eq_true.mp h3 a.1 (List.mem_map_of_mem ha)
+  simpa using this
+
+/-- **cq_equiv_partial, conditional gates** (one-line translation `M` on `qs`) -/
+theorem cq_equiv_cond_partial (n : Nat) (nz : List α → Bool) (g : GateTerm P) (bits qs : List Nat) (M : LMat α)
+    (hU : Spec.embed n qs M = Spec.embed n bits (Spec.specMatrix g))
+    (control : List Nat) (target : Nat) (hnd : control.Nodup) (ht : target < 2 ^ control.length)
+    (hc64 : control.all Sim.shiftOk = true) (hlen : control.length ≤ 64)
+    (br : CQ1.Branch α) (hbr : BrInv n nz br)
+    (hnz : nz (LMat.mulVec (Spec.embed n bits (Spec.specMatrix g)) br.1) = true) :
+    some (dSeq n nz ((notBits control target).map .notb ++ [.gate control qs M] ++ (notBits control target).map .notb) [br]) =
+      Spec.branchesOp n nz (.cond control target g bits) br :=
+  cond_op_equiv n nz g bits qs M hU control target hnd ht hc64 hlen br hbr hnz
+
+theorem cq_equiv_measure_partial (n : Nat) (hn : n ≤ 64) (nz : List α → Bool) (q : Nat) (hq : q < n) (b : Sim.Basis)
+    (br : CQ1.Branch α) (hbr : BrInv n nz br) :
+    some (dSeq n nz [.measure q (basisPre (P := P) b) (basisPost (P := P) b)] [br]) =
+      Spec.branchesOp n nz (.measure q q b : Sim.COp P) br := measure_op_equiv n hn nz q hq b br hbr
+
+theorem cq_equiv_prep_partial (n : Nat) (nz : List α → Bool) (q : Nat) (br : CQ1.Branch α) :
+    some (dSeq n nz [.prep q] [br]) = Spec.branchesOp n nz (.reset q : Sim.COp P) br := prep_op_equiv n nz q br
+
+theorem cq_equiv_barrier_partial (n : Nat) (nz : List α → Bool) (bits : List Nat) (br : CQ1.Branch α)
+    (hbr : BrInv n nz br) :
+    some (dSeq n nz [] [br]) = Spec.branchesOp n nz (.barrier bits : Sim.COp P) br := barrier_op_equiv n nz bits br hbr
+
+/-- non-vacuity over ℂ: `CCRX` for every real angle on qubits `[4, 0, 2]` of a 5-qubit register -/
+example (θ : ℝ) := cq_equiv_gate_partial (α := ℂ) AmpComplex.lawful AmpComplex.lawfulHalf AmpComplex.lawfulNegHalf
+  "CCRX" (by decide) [θ] (by rw [slines_table.2.2.2.2.2.2.2.2.2.2.2.2.2.2.2.2.2.2.2.2.2.2.2]; rfl) 5 [4, 0, 2] (by decide) (by decide)
+
+end equiv
 
 /-! ## Non-vacuity: circuits on which the whole property holds (exactly, over ℚ(ζ₈)) -/
 
